@@ -29,6 +29,12 @@ func ParseAuthorizedKeys(r io.Reader) (authorized AuthorizedKeys, err error) {
 		}
 		authorized = append(authorized, *k)
 	}
+	// A read error ends the scan like end-of-file does, and the scanner hands
+	// out what it had read of the last line: without this check a line cut
+	// short by an I/O error could be taken for an entry.
+	if err := s.Err(); err != nil {
+		return nil, err
+	}
 	return
 }
 
